@@ -145,7 +145,21 @@ def D6(m, R):
                     ps_ = callee.own_params() if not callee.is_static else callee.params
                     rets_ = [x for x in callee.walk() if isinstance(x, ast.Return)]
                     if hs is not None and len(ps_) >= 2 and hs[0] == ps_[0] and hs[1] == ps_[1] and hs[3] == 1 and len(rets_) == 1 and norm(rets_[0].value) == hs[2]:
-                        facts.append((norm(c_.args[0]), norm(c_.args[1]), n.targets[0].id, 1, n))
+                        # wrappers between the assigned value and the helper call: `-h(..)`, `X or None`, `X if flag else 0|None`
+                        sign, ok_wrap = 1, True
+                        for p_ in _parents(c_):
+                            if p_ is n:
+                                break
+                            if isinstance(p_, ast.UnaryOp) and isinstance(p_.op, ast.USub):
+                                sign = -sign
+                            elif isinstance(p_, ast.BoolOp) and isinstance(p_.op, ast.Or) and len(p_.values) == 2 and const_val(p_.values[1], 0) is None:
+                                pass
+                            elif isinstance(p_, ast.IfExp) and const_val(p_.orelse, 1) in (0, None) and not any(x is c_ for x in ast.walk(p_.test)):
+                                pass
+                            else:
+                                ok_wrap = False
+                        if ok_wrap:
+                            facts.append((norm(c_.args[0]), norm(c_.args[1]), n.targets[0].id, sign, n))
     seen = {'fwd': None, 'rev': None}
     for fct in facts:
         if fct[0] == txt:
